@@ -106,6 +106,10 @@ def run(ctx):
     prog = ctx.prog
     ctx.rule("PANIC", "every panic-capable construct reachable from the checker / decoder entry points is auto-discharged or a reviewed table line whose guards still dominate it")
     ctx.rule("RA", "untrusted sizes do not size allocations")
+    # returning at all: a once-initialiser that waits on the rayon pool can be re-entered by the waiting worker and never return
+    from .. import determinism as D_
+    ctx.rule("RL", "no initialiser run under OnceLock::get_or_init drives the rayon pool (re-entrant initialisation would block forever)")
+    D_.check_once_initialisers(ctx, "RL")
     roots, fns = reachable_fns(ctx, ENTRY, 40)
     sites, n_auto, n_tab = P.decide_sites(ctx, "PANIC", prog, fns, label="checker/decoder")
     ctx.floor("PANIC", "functions reachable from the checker/decoder entry points", len(fns), 300)
